@@ -48,7 +48,7 @@ def block(draw, n, families, energy="ps", allow_free=False):
     if two and n < 2:
         fam, two = "Sgate", False
     modes = list(draw(st.permutations(list(range(n))))[: 2 if two else 1])
-    rel = draw(st.sampled_from(["generic", "inverse", "dagger", "equal", "second_differs", "triple"]))
+    rel = draw(st.sampled_from(["generic", "inverse", "dagger", "equal", "second_differs", "triple", "inverse_second_differs", "dagger_second_differs"]))
     out = []
 
     def mk(params, H=False):
@@ -101,6 +101,14 @@ def block(draw, n, families, energy="ps", allow_free=False):
         h1 = h2 = draw(st.booleans()) if fam not in CHAN else False
     elif rel == "second_differs" and len(p1) > 1:
         p2[1] = p1[1] + 0.3
+    elif rel == "inverse_second_differs" and len(p1) > 1 and fam not in CHAN:
+        # first parameters cancel exactly but the phases differ: NOT the identity, must not be merged away
+        p2[0] = -p1[0]
+        p2[1] = p1[1] + draw(st.sampled_from([0.3, 1.3, np.pi / 2]))
+    elif rel == "dagger_second_differs" and len(p1) > 1 and fam not in CHAN:
+        p2[0] = p1[0]
+        p2[1] = p1[1] + draw(st.sampled_from([0.3, 1.7]))
+        h2 = True
     if allow_free and fam not in CHAN and draw(st.integers(0, 3)) == 0:
         # free symbolic first parameters: ["free", name]; values are bound from case["bind"]
         p1[0] = ["free", "a"]
@@ -356,7 +364,32 @@ def check_ms(ctx, case):
     return None
 
 
+# ---------------------------------------------------------------------------------------------
+# feed-forward programs: the optimiser must leave gates that depend on measured values alone (or merge them correctly)
+# ---------------------------------------------------------------------------------------------
+def measured_case():
+    from vf.props import c10
+
+    def force(c, k=[0]):
+        c = dict(c)
+        c["optimize"] = c.get("optimize") or "optimize"
+        return c
+
+    return c10.meas_case().map(force)
+
+
+def check_measured(ctx, case):
+    """C10's measured-parameter histories (post-selected homodyne, gates fed by the outcomes incl. neighbouring gates of one family fed by
+    the same mode, re-measurement, two segments) with optimisation always on: the state must equal the twin with the outcomes substituted"""
+    from vf.props import c10
+
+    ctx.label("optimised_feed_forward")
+    return c10.check_meas(ctx, case)
+
+
 SUBS = [
+    Sub("measured_opt", check=check_measured, strategy=lambda ctx: measured_case(), examples={"quick": 400, "thorough": 4000},
+        shards={"quick": 1, "thorough": 8}, rule="feed-forward programs (C10's measured histories) optimised with optimize() / compile(optimize=True) vs the numeric twin"),
     Sub("gaussian_opt", check=check_gauss, strategy=lambda ctx: gauss_case(), examples={"quick": 1200, "thorough": 10000},
         shards={"quick": 2, "thorough": 16}, rule="Gaussian programs with same-family blocks: optimize() and compile(optimize=True) vs source, as full maps; snapshot immutability"),
     Sub("fock_opt", check=check_fock, strategy=lambda ctx: fock_case(), examples={"quick": 120, "thorough": 1000},
